@@ -193,16 +193,20 @@ def classify(u, hname, checks, verdict, contract_clauses):
         if status == 'SUCCESS' or status == 'UNREACHABLE' or status == 'SATISFIED' or status == 'UNSATISFIABLE':
             res['n_success'] += 1
             continue
-        if cls == 'unwind' or 'unwinding assertion' in desc:
+        if status == 'UNDETERMINED':
+            res['n_undetermined'] = res.get('n_undetermined', 0) + 1
+        elif cls == 'unwind' or 'unwinding assertion' in desc:
             res['undecided'].append(f'unwinding assertion: {desc} @ {c.get("loc")}')
         elif cls == 'unsupported_construct' or 'not currently supported by Kani' in desc:
             res['undecided'].append(f'unsupported construct: {desc} @ {c.get("loc")}')
         elif status == 'UNDETERMINED':
-            res['undecided'].append(f'undetermined: {desc}')
+            res['n_undetermined'] = res.get('n_undetermined', 0) + 1
         elif status == 'FAILURE':
             res['panics'].append({'desc': desc, 'loc': c.get('loc'), 'check': name})
         else:
             res['undecided'].append(f'status {status}: {desc}')
+    if res.get('n_undetermined') and not res['undecided']:
+        res['undecided'].append(f'{res["n_undetermined"]} checks undetermined')
     return res
 
 
@@ -248,7 +252,7 @@ class KaniRun:
         if playback:
             cmd += ['-Z', 'concrete-playback', '--concrete-playback=print']
         cmd += tail
-        to = timeout or h.get('timeout', 600)
+        to = timeout or h.get('timeout', 300)
         rc, out, wall, rss, reason = run(cmd, cwd=self.scratch, timeout=to, rss_limit_gb=h.get('rss_gb', 10))
         return {'cmd': ' '.join(cmd), 'rc': rc, 'out': out, 'wall_s': round(wall, 2), 'peak_rss_mb': rss, 'killed': reason}
 
